@@ -57,11 +57,11 @@ def run(ctx):
         fnp = CSL + 'insert_unused_channel_id'
         rows = P.table(ctx, fnp, ['self', 'make_entry'])
         site = ctx.site(fnp)
-        G = '(self.next_channel_id <= self.channel_max)'
+        G = '(self.channel_max < self.next_channel_id)'  # canonical: `next <= max` is (max < next) failing
         ENT = 'std::collections::HashMap::entry(self.slots, $s0)'
         SNAP = 'let $s0 = (self.next_channel_id as u16)'
-        cnt = [x for x in rows if x.conds and x.conds[0] == (G, True)]
-        fb = [x for x in rows if x.conds and x.conds[0] == (G, False)]
+        cnt = [x for x in rows if x.conds and x.conds[0] == (G, False)]
+        fb = [x for x in rows if x.conds and x.conds[0] == (G, True)]
         r.check('rows', len(cnt) == 2 and len(fb) == 2, site, built=[x.row() for x in rows], expected='counter loop (occupied/vacant) and fallback loop (occupied/vacant)')
         for x in cnt:
             i_snap = x.effects.index(SNAP) if SNAP in x.effects else -1
